@@ -56,6 +56,10 @@ CHECKS = {
          "Every path within the bound from every context root (struct pointer/value, maps with string/int keys, slices, arrays, strings, scalars, nil, funcs and methods of every accepted signature incl. variadic, *Value, implicit context, (T, error), interface-typed parameters) is rendered in three sinks and compared with the reference resolver: value, empty, or execution error - never a panic or another value. Shadowing of globals/context/tag scope is enumerated over all 16 combinations.",
          "The model tree is written by hand parallel to the Go object graph; behaviour the property leaves open is skipped and counted (see evidence assumptions).",
          "DESIGN.md §3 C08"),
+ "C11": ("bounded-exhaustive enumeration of loader configurations x virtual file trees x reference kinds x name forms x referrer locations, two-hop chains and inheritance+include, observed through recording in-memory loaders and a canary file on the real file system",
+         "Every configuration within the bounds is compiled and rendered through recording loaders: the set of fetched paths must equal the closure of the referenced names, the first loader holding a name must serve it (later loaders not asked), missing names are errors (or nothing with if_exists, which must not swallow errors of existing files), each hop is resolved relative to the referring file, and a real file no loader serves is never read.",
+         "Harness loaders follow DESIGN.md Appendix A.8; expectations are computed by the generator from its knowledge of the tree.",
+         "DESIGN.md §3 C11"),
 }
 
 NOT_YET = {}
